@@ -167,6 +167,14 @@ def run(pid, cfg, tier, seed, workdir, already_broken):
     n = 24 if tier == "quick" else 600
     rs, _ = corr.run_batch(cfg.get("families", []), n, seed, os.path.join(workdir, "rand"))
     results += rs
+    if cfg.get("stale"):
+        # weak memory, one site: the Relaxed first read of the fast path is answered with values the storage held
+        # earlier (the hook shim's Decision::Stale; the model follows with Stale.step_stale)
+        rs2, _ = corr.run_batch(cfg.get("families", []), max(8, n // 3), seed + 5, os.path.join(workdir, "stale"), policies=("stale",))
+        results += rs2
+        for sp in _scen_paths(["s24"]):
+            for sd in range(1, 41 if tier == "quick" else 400):
+                results.append(corr.run_program(sp, sd, "stale", os.path.join(workdir, "stale-s24-%d" % sd), family="corpus"))
     s = corr.summarize(results)
     broken = []
     if s["diverged"]:
